@@ -277,6 +277,25 @@ pub fn leaves() -> Vec<(Scenario, bool)> {
     out
 }
 
+/// C11: histories whose restart behaviour depends on what a call left uncommitted or unreleased
+pub fn c11_extra() -> Vec<(Scenario, bool)> {
+    vec![
+        // the relay list is emptied, then the group goes on (everything written after the emptying must survive a restart)
+        (base("relays-emptied-then-commit", &["A", "B", "Z"], &["A", "B"], &[], vec![act("A", ActKind::Relays(vec![]), 10).then(vec![rename("A", "after-emptying", 20).then(vec![msg("B", "later")])])]), true),
+        // a rollback over two epochs, then a fresh race at the epoch reached again (restart anywhere in between)
+        (
+            base(
+                "deep-rollback-then-race",
+                &["A", "B", "C", "Z"],
+                &["A", "B"],
+                &[],
+                vec![rename("A", "a1", 10).then(vec![rename("A", "a2", 30), act("C", ActKind::SelfUpdate, 40)]), rename("B", "b1", 20).then(vec![rename("B", "b2", 25)])],
+            ),
+            true,
+        ),
+    ]
+}
+
 /// a losing branch exactly as deep as the default snapshot retention (5): the winner for the fork epoch arrives when
 /// the member is `depth` epochs further
 pub fn deep_fork(depth: usize) -> Scenario {
